@@ -7,6 +7,7 @@ CONSTANTS
   LENS = {1, 170, 171, 355}
   HDRS = {"pts"}
   AFS = {"none", "raipcr", "big"}
+  BIGS = {FALSE, TRUE}
   PKTS = {"null", "toobig"}
 INVARIANTS C04_Aligned C04_PUSI C17_TablesFirst C17_Period C17_AutoPid
 PROPERTIES C05_CC C17_Version C17_RAP
